@@ -7,8 +7,12 @@
    here), the notify list (tail != NULL, number of continuations on it), do_ctxt / do_finalizer / do_targetq.
    Threads: a per-thread automaton `tstep` over the events of the DISPATCH_VERIF hook (the same automaton is fed the
    recorded traces of the real library) + ghost TOKENS: every reference is a token that is either in a pool (held
-   by the application / by a data structure between calls) or held by a call in progress (`held k pc`); a call
-   may release only a token it took; the client is the most general one respecting this.  For every kind k the
+   by the application / by a data structure between calls) or owned by a call in progress (`held k pc`); a call
+   may release only a token it took out of a pool.  USING the object does not move a token: a call made through a
+   reference only BORROWS it (kinds KBX / KBI count the calls in progress that borrow an external / internal
+   reference); any number of threads may be inside calls through the same reference.  The client contract is the
+   usual one: while some call borrows a reference of a level, whoever owns references of that level does not release
+   the last one of them (`effect`, DVU_CALL).  The client is the most general one respecting this.  For every kind k the
    ghost register `priv k` is the sum over all threads of `held k`; it is maintained uniformly by `gstep`.
    The generated pieces (Gen_refcnt, Gen_group): the rmw-loop bodies of _os_object_retain_weak and
    _dispatch_group_notify, the memory orders, constants and atomic-site lists. *)
@@ -48,8 +52,10 @@ Definition leave_new (old : Z) : Z :=
 
 (* ------------------------------------------------------------------ tokens *)
 Inductive kind :=
-| KX      (* external reference *)
-| KI      (* internal reference *)
+| KX      (* external reference owned by a call in progress (being released / just created) *)
+| KI      (* internal reference owned by a call in progress *)
+| KBX     (* a call in progress that borrows an external reference owned by someone else (the application) *)
+| KBI     (* a call in progress that borrows an internal reference owned by someone else *)
 | KE      (* a completed dispatch_group_enter not yet consumed by a leave *)
 | KQ      (* internal reference on the notification queue (one per pending notification) *)
 | KPE     (* enter made the group non-empty, its _dispatch_retain not yet done (counts as an enter too) *)
@@ -57,11 +63,11 @@ Inductive kind :=
 | KD      (* duty to deliver the current batch: between the list's retain and setting HAS_NOTIFS / the snapshot *)
 | KXD     (* xref reached -1, _os_object_xref_dispose not yet past its barrier *)
 | KDP     (* ref reached -1, _os_object_dispose / _dispatch_dispose not yet done *)
-| KB.     (* derived: borrowed references not matched by a pending retain = KX + KI - KPE - KPN (pointwise >= 0:
+| KB.     (* derived: borrows not matched by a pending retain = KBX + KBI - KPE - KPN (pointwise >= 0:
              whoever owes a retain is inside a call that borrowed a reference) *)
-Definition all_kinds := [KX; KI; KE; KQ; KPE; KPN; KD; KXD; KDP; KB].
+Definition all_kinds := [KX; KI; KBX; KBI; KE; KQ; KPE; KPN; KD; KXD; KDP; KB].
 
-Inductive bsrc := BX | BI | BN.                (* the reference a call borrows for its duration *)
+Inductive bsrc := BX | BI | BN.                (* the kind of reference a call borrows for its duration (BN: none) *)
 Inductive kont := KApi (b : bsrc) | KImpl.     (* API call (ends with DVU_RET) or library-internal leave on a worker *)
 
 Inductive pc :=
@@ -94,11 +100,11 @@ Inductive pc :=
 | PNfCas (b : bsrc) (old new : Z).         (* the loop tries old -> new = old | HAS_NOTIFS *)
 
 Definition hb (k : kind) (b : bsrc) : Z :=
-  match k, b with KX, BX => 1 | KI, BI => 1 | _, _ => 0 end.
+  match k, b with KBX, BX => 1 | KBI, BI => 1 | _, _ => 0 end.
 Definition hk (k : kind) (c : kont) : Z := match c with KApi b => hb k b | KImpl => 0 end.
 Definition one (k k' : kind) : Z :=
   match k, k' with
-  | KX, KX | KI, KI | KE, KE | KQ, KQ | KPE, KPE | KPN, KPN | KD, KD | KXD, KXD | KDP, KDP | KB, KB => 1
+  | KX, KX | KI, KI | KBX, KBX | KBI, KBI | KE, KE | KQ, KQ | KPE, KPE | KPN, KPN | KD, KD | KXD, KXD | KDP, KDP | KB, KB => 1
   | _, _ => 0
   end.
 
@@ -108,7 +114,7 @@ Definition held0 (k : kind) (p : pc) (g : Z) : Z :=
   match p with
   | PIdle | PCrash => 0
   | PRet b rx ri re => hb k b + rx * one k KX + ri * one k KI + re * one k KE
-  | PRetain => one k KX
+  | PRetain => hb k BX
   | PRelease => one k KX
   | PXBarrier => one k KI + one k KXD
   | PIRel c n => hk k c + n * one k KI
@@ -132,7 +138,7 @@ Definition held0 (k : kind) (p : pc) (g : Z) : Z :=
   end.
 Definition held (k : kind) (p : pc) (g : Z) : Z :=
   match k with
-  | KB => held0 KX p g + held0 KI p g - held0 KPE p g - held0 KPN p g
+  | KB => held0 KBX p g + held0 KBI p g - held0 KPE p g - held0 KPN p g
   | _ => held0 k p g
   end.
 
@@ -201,7 +207,7 @@ Definition tstep1 (p : pc) (e : event) : option pc :=
   | PRet _ _ _ _ => if ev_kind e DVU_RET then Some PIdle else None
   | PRetain =>      (* object.c:71: xref_cnt = add_orig(1, relaxed); < 0: resurrection crash *)
       if at_ e OBJ_G OFF_XREF DV_ADD MO_RELAXED && (eb e =? 1)
-      then Some (if sv e <? 0 then PCrash else PRet BN 2 0 0) else None
+      then Some (if sv e <? 0 then PCrash else PRet BX 1 0 0) else None
   | PRelease =>     (* object.c:92: xref_cnt = sub(1, release); >= 0 return; < -1 crash; else xref_dispose *)
       if at_ e OBJ_G OFF_XREF DV_SUB MO_RELEASE && (eb e =? 1)
       then let new := s32 (sv e - 1) in
@@ -311,12 +317,16 @@ Definition init_state : gst :=
 Definition guard (c : bool) (x : list (greg * Z) * Z) : option (list (greg * Z) * Z) := if c then Some x else None.
 
 (* memory / ghost effect of the event e performed at program point p (other than PIdle / PFire / PRet):
-   None = the event is inconsistent with the memory, or the step is one a well-behaved client never enables *)
+   None = the value the event reports is inconsistent with the memory (or with the abstraction of dg_state).
+   Nothing is disabled here to keep a crash away: counter saturation wraps (s32) as in C, the 2^30-th nested enter
+   and a dispose that reads a non-zero low word go to PCrash; the bounds under which they cannot happen are the
+   explicit client contract `contract_r` below. *)
+Definition MAXE := 1073741823.     (* 2^30 - 1 outstanding enters: the next one reads DISPATCH_GROUP_VALUE_MAX and crashes *)
 Definition effect1 (r : greg -> Z) (g : Z) (p : pc) (e : event) : option (list (greg * Z) * Z) :=
   match p with
   | PIdle | PCrash | PRet _ _ _ _ | PFire _ _ _ => None
   | PRetain =>
-      guard ((sv e =? r XREF) && (r XREF + 1 <? MAXC)) ([(XREF, s32 (r XREF + 1))], g)
+      guard (sv e =? r XREF) ([(XREF, s32 (r XREF + 1))], g)
   | PRelease =>
       let new := s32 (r XREF - 1) in
       guard (sv e =? r XREF) ([(XREF, new); (XALIVE, if new =? -1 then 0 else r XALIVE)], g)
@@ -324,25 +334,25 @@ Definition effect1 (r : greg -> Z) (g : Z) (p : pc) (e : event) : option (list (
   | PIRel _ n => guard (sv e =? r IREF) ([(IREF, s32 (r IREF - n))], g)
   | PIBarrier _ => guard (sv e =? r IREF) ([], g)
   | PDispose _ =>
-      if nz (u32 (ea e)) then guard ((0 <? r GVAL) || (r GNOT =? 1)) ([], g)
+      if nz (u32 (ea e)) then Some ([], g)      (* "Group object deallocated while in use": PCrash *)
       else
         let f := nz (r FIN) && nz (r CTX) in
         guard ((r GVAL =? 0) && (r GNOT =? 0))
           ([(DISP, r DISP + 1); (FREED, 1); (TREL, r TREL + 1);
             (NFIN, r NFIN + (if f then 1 else 0)); (FINCTX, if f then r CTX else r FINCTX);
             (FINQ, if f then r TQ else r FINQ)], g)
-  | PIRetain _ n => guard ((sv e =? r IREF) && (r IREF + n <? MAXC)) ([(IREF, s32 (r IREF + n))], g)
+  | PIRetain _ n => guard (sv e =? r IREF) ([(IREF, s32 (r IREF + n))], g)
   | PWeakLoad _ => guard (sv e =? r XREF) ([], g)
   | PWeakCas _ old new =>
-      guard ((sv e =? r XREF) && (negb (eok e =? 1) || (r XREF =? old)) && (old + 1 <? MAXC))
+      guard ((sv e =? r XREF) && (negb (eok e =? 1) || (r XREF =? old)))
             ((if eok e =? 1 then [(XREF, new)] else []), g)
   | PEnter _ =>
       let old_value := Z.land (ea e) VMASK in
       if old_value =? 0 then guard (r GVAL =? 0) ([(GVAL, 1)], g)
-      else if old_value =? VMAX then None            (* 2^30 nested enters: excluded client behaviour *)
+      else if old_value =? VMAX then guard (r GVAL =? MAXE) ([(GVAL, r GVAL + 1)], g)    (* "Too many nested calls": PCrash *)
       else guard (1 <=? r GVAL) ([(GVAL, r GVAL + 1)], g)
   | PEnterRetain _ | PNfRetain _ =>
-      guard ((sv e =? r IREF) && (r IREF + 1 <? MAXC)) ([(IREF, s32 (r IREF + 1))], g)
+      guard (sv e =? r IREF) ([(IREF, s32 (r IREF + 1))], g)
   | PLeave _ =>
       let old_value := Z.land (ea e) VMASK in
       if old_value =? V1 then guard (r GVAL =? 1) ([(GVAL, 0)], g)
@@ -362,7 +372,20 @@ Definition effect1 (r : greg -> Z) (g : Z) (p : pc) (e : event) : option (list (
       if eok e =? 1 then guard (b2z (nz (Z.land old HN)) =? r GNOT) ([(GNOT, 1)], g) else Some ([], g)
   end.
 
-Definition effect (r : greg -> Z) (g : Z) (p : pc) (e : event) : option (list (greg * Z) * Z) :=
+(* The reference discipline of the client (an enabling condition: it defines which calls the client makes):
+   - a call that USES the object through a reference of level X / I needs such a reference to exist in the pool
+     (someone owns it and keeps it for the duration of the call: see the last two lines); it does not take it;
+   - a call that RELEASES takes the references it releases out of the pool (it owns them from then on); the same
+     for a leave and its enter;
+   - while calls in progress borrow a reference of a level (pv KBX / pv KBI > 0), a release of that level must leave
+     at least one reference of that level in the pool. *)
+Definition call_guard (r : greg -> Z) (pv : kind -> Z) (p' : pc) : bool :=
+  (held KX p' 0 <=? r XPOOL) && (held KI p' 0 <=? r IPOOL) && (held KE p' 0 <=? r EPOOL) &&
+  (held KBX p' 0 <=? r XPOOL - held KX p' 0) && (held KBI p' 0 <=? r IPOOL - held KI p' 0) &&
+  ((held KX p' 0 =? 0) || (1 <=? r XPOOL - held KX p' 0) || (pv KBX =? 0)) &&
+  ((held KI p' 0 =? 0) || (1 <=? r IPOOL - held KI p' 0) || (pv KBI =? 0)).
+
+Definition effect (r : greg -> Z) (pv : kind -> Z) (g : Z) (p : pc) (e : event) : option (list (greg * Z) * Z) :=
   if noise e then Some ([], g)
   else match p with
   | PIdle =>
@@ -371,7 +394,7 @@ Definition effect (r : greg -> Z) (g : Z) (p : pc) (e : event) : option (list (g
         | None => None
         | Some p' =>       (* the call takes the tokens it needs out of the pools *)
             let op := ea e mod 100 in
-            guard ((held KX p' 0 <=? r XPOOL) && (held KI p' 0 <=? r IPOOL) && (held KE p' 0 <=? r EPOOL))
+            guard (call_guard r pv p')
               ([(XPOOL, r XPOOL - held KX p' 0); (IPOOL, r IPOOL - held KI p' 0); (EPOOL, r EPOOL - held KE p' 0)] ++
                (if op =? OP_SETCTX then [(CTX, eb e)]
                 else if op =? OP_SETFIN then [(FIN, eb e)]
@@ -399,7 +422,7 @@ Definition gstep (s : gst) (t : Z) (e : event) : option gst :=
   match tstep p e with
   | None => None
   | Some p' =>
-      match effect (regs s) g p e with
+      match effect (regs s) (priv s) g p e with
       | None => None
       | Some (ups, g') =>
           let r1 := apply_ups ups (regs s) in
@@ -410,7 +433,21 @@ Definition gstep (s : gst) (t : Z) (e : event) : option gst :=
       end
   end.
 
-Definition step (s : gst) (a : Z * event) (s' : gst) : Prop := gstep s (fst a) (snd a) = Some s'.
+(* The quantitative part of the client contract, explicit (every theorem is about runs all of whose steps satisfy it):
+   fewer than 2^31-2 references of each level, fewer than 2^30-1 outstanding enters, and — the one fact about the part
+   of dg_state this model keeps abstract — when the group is disposed its low word is zero unless the value or
+   HAS_NOTIFS say so, i.e. HAS_WAITERS is not left set on an empty group (C07: the leave that empties the group
+   clears it; a waiter inside dispatch_group_wait borrows a reference, so none is inside at dispose). *)
+Definition contract_r (r : greg -> Z) (p : pc) (e : event) : bool :=
+  (r XREF + 1 <? MAXC) && (r IREF + 2 <? MAXC) && (r GVAL <? MAXE) &&
+  match p with
+  | PDispose _ => negb (nz (u32 (ea e))) || (0 <? r GVAL) || (r GNOT =? 1)
+  | _ => true
+  end.
+Definition contractb (s : gst) (t : Z) (e : event) : bool := contract_r (regs s) (pcs s t) e.
+
+Definition step (s : gst) (a : Z * event) (s' : gst) : Prop :=
+  contractb s (fst a) (snd a) = true /\ gstep s (fst a) (snd a) = Some s'.
 Definition reach : gst -> Prop := reachable (fun s => s = init_state) step.
 
 Fixpoint grun (s : gst) (tr : list (Z * event)) : option gst :=
